@@ -19,6 +19,7 @@ mod c14;
 mod c18;
 mod lall;
 mod cfggen;
+mod chv2gen; // chv2
 mod c12;
 mod c16;
 mod c20; // C20
